@@ -537,7 +537,7 @@ func VH_C05_EditedAccountGovernsAllItsSessions() {
 	e := vNewEnv()
 	vAssume(e.has(hotline.AccessModifyUser))
 	s := []*hotline.ClientConn{vNewClient(e.srv, "bob"), vNewClient(e.srv, "bob"), vNewClient(e.srv, "bob")}
-	e.am.getResult = &hotline.Account{Login: "bob", Name: "Bob", Password: "H:old", Access: s[0].Account.Access}
+	e.am.getResult = &hotline.Account{Login: "bob", Name: "Bob", Password: "H:zzold", Access: s[0].Account.Access}
 	newAccess := vBytesN("access_after_edit", 8)
 	st := hotline.NewTransaction(hotline.TranSetUser, e.cc.ID, f(hotline.FieldUserLogin, []byte{0x9d, 0x90, 0x9d}), f(hotline.FieldUserName, []byte("Bob")),
 		f(hotline.FieldUserAccess, newAccess), f(hotline.FieldUserPassword, []byte{0}))
